@@ -1,0 +1,44 @@
+//go:build verif
+
+package packet
+
+// Contracts for package packet, checked by /verif/govc (build tag verif).
+
+// ---------- reference decoders (written from the RFCs) ----------
+
+func spec_be16(p []byte, o int) uint16 { return uint16(p[o])<<8 | uint16(p[o+1]) }
+
+func spec_valid_ip4(p IP4) bool {
+	return len(p) >= 20 && int(p[0]&0x0f)*4 >= 20 && int(p[0]&0x0f)*4 <= len(p) &&
+		int(spec_be16(p, 2)) >= int(p[0]&0x0f)*4 && int(spec_be16(p, 2)) <= len(p)
+}
+
+//verif:props C01 C02
+func verif_contract_IP4_IsValid(p IP4) error {
+	err := p.IsValid()
+	vEnsures((err == nil) == spec_valid_ip4(p))
+	return err
+}
+
+// ---------- C15 ----------
+
+// spec_lesum: sum of the little-endian 16-bit words of b[0:n], n even.
+func spec_lesum(b []byte, n int) uint32 {
+	if n <= 0 {
+		return 0
+	}
+	return spec_lesum(b, n-2) + (uint32(b[n-1])<<8 | uint32(b[n-2]))
+}
+
+func verif_inv_Checksum_1(b []byte, csumcv int, s uint32, i int) bool {
+	return csumcv == len(b)-1 && 0 <= i && i%2 == 0 && i <= csumcv+1 && s == spec_lesum(b, i)
+}
+
+func verif_dec_Checksum_1(csumcv int, i int) int { return csumcv + 2 - i }
+
+//verif:props C15
+func verif_contract_Checksum(b []byte) uint16 {
+	vRequires(len(b) <= 65535)
+	ret := Checksum(b)
+	return ret
+}
